@@ -473,6 +473,32 @@ def run(ck, facts):
               "nanobind drops nb::keep_alive for outputs %s; only string slices are copied by their caster (expected ['OutType(Slice(Str))']): a borrowed primitive-slice view would outlive the object it points into" % sup, C.loc(nb))
 
 
+    # nanobind: every way a method is registered (`.def(...)` arm per special-method kind, and the plain case) passes the computed `lifetime_args` (nb::keep_alive) on,
+    # except the kinds that cannot return a borrowing object (arithmetic / comparison operators, __str__ which copies)
+    import tmpl as _tn
+    src_nb = C.read_repo("tool/templates/nanobind/method_impl.cpp.jinja")
+    for _ in range(3):     # includes (of includes) spliced in
+        src_nb = re.sub(r"\{%-?\s*include\s+\"([\w./]+)\"\s*-?%\}", lambda m_: C.read_repo("tool/templates/nanobind/" + m_.group(1)), src_nb)
+    parts = re.split(r"\{%-?\s*(when\s+(?:crate::hir::SpecialMethod::[^%]*?|_))\s*-?%\}", src_nb)      # arms of the outer match only
+    EXEMPT = ("Add", "Sub", "Mul", "Div", "AddAssign", "SubAssign", "MulAssign", "DivAssign", "Comparison", "Stringifier")
+    narm = 0
+    for i in range(1, len(parts) - 1, 2):
+        head, body_ = parts[i], parts[i + 1]
+        if head.strip() == "when _":
+            body_ = body_[:body_.rfind("{%- else -%}")] if "{%- else -%}" in body_ else body_      # the outer `if let Some(special_method)` has the last else of the file
+        kinds_ = re.findall(r"SpecialMethod::(\w+)", head) or ["_"]
+        if all(k_ in EXEMPT for k_ in kinds_):
+            continue
+        # the arm's own text ends where the next `when` / endmatch starts (split already did that); nested matches inside an arm are part of it only up to their first `when`
+        narm += 1
+        ck.expect("lifetime_args" in body_, "R1", "nanobind/method_impl/%s-passes-keep_alive" % "+".join(kinds_), "prints lifetime_args",
+                  "the nanobind registration of %s methods does not print `lifetime_args`: the nb::keep_alive computed for a return value that borrows from self / a parameter is dropped, "
+                  "Python may collect the owner while the returned object is alive" % "+".join(kinds_), "tool/templates/nanobind/method_impl.cpp.jinja")
+    tail_plain = src_nb[src_nb.rfind("{%- else -%}"):] if "{%- else -%}" in src_nb else ""
+    ck.expect("lifetime_args" in tail_plain, "R1", "nanobind/method_impl/plain-passes-keep_alive", "", "plain methods are registered without lifetime_args", "tool/templates/nanobind/method_impl.cpp.jinja")
+    if narm < 5:
+        ck.bad("R1", "nanobind/method_impl/arms-floor", "only %d special-method arms found in the nanobind method template" % narm)
+
     # ---------------- R6 branded lifetime indices
     n6 = 0
     for f in tool.fn_list:
@@ -525,6 +551,29 @@ def run(ck, facts):
                               "a use-site lifetime is looked up in the struct's definition environment", C.loc(f, x.get("ln")))
     if n6 < 4:
         ck.bad("R6", "floor", "only %d branded fmt_lifetime calls found (4 counted: dart and js, def and use)" % n6)
+    # ... and the map itself is consumed whole wherever a backend iterates it (all definition-site lifetimes matching a use-site lifetime, not the first one)
+    TRUNC_M = {"next", "first", "last", "take", "nth", "skip", "find", "min", "max", "step_by", "next_back", "pop_first", "pop_last", "take_while", "skip_while", "position", "find_map", "first_key_value", "last_key_value"}
+    nmapwalk = 0
+    for f in tool.fn_list:
+        if "hir" not in f or f.get("exp"):
+            continue
+        subs_ = {id(C.strip(n["recv"])) for n in C.walk(C.fn_body(f)) if n.get("k") == "mcall"}
+        for n in C.walk(C.fn_body(f)):
+            if n.get("k") != "mcall" or id(n) in subs_:
+                continue
+            ch, r_ = [], n
+            while isinstance(r_, dict) and r_.get("k") == "mcall":
+                ch.append(r_["m"])
+                r_ = C.strip(r_["recv"])
+            if not (isinstance(r_, dict) and r_.get("k") == "field" and r_.get("n") == "borrowed_struct_lifetime_map"):
+                continue
+            nmapwalk += 1
+            cut = [m_ for m_ in ch if m_ in TRUNC_M]
+            ck.expect(not cut, "R6", "%s/lifetime-map-consumed-whole" % C.norm_path(f["path"]).split("::")[-1], ".".join(reversed(ch)),
+                      "the struct's lifetime map is cut down by `.%s()`: when one use-site lifetime fills several definition-site slots (`Pair<'a, 'a>`) only the first slot's fields "
+                      "are listed as borrowed-from, the others can be collected while the result still points into them" % cut[0] if cut else "", C.loc(f, n.get("ln")))
+    if nmapwalk < 1:
+        ck.bad("R6", "lifetime-map-walk-floor", "no iterator chain over borrowed_struct_lifetime_map found in the backends (1 counted: js iter_def_lifetimes_matching_use_lt)")
     # definition-site halves of linked lifetime pairs are never formatted with a user-side environment (no such use exists today: the matcher is kept alive by a built-in sample)
     ck.expect(def_brand_misuse(_BRAND_SAMPLE) == [("def_lt", 1)], "R6", "linked-pair/matcher-selftest", "sample flagged", "the def-brand matcher no longer recognises its built-in sample")
     for f in tool.fn_list + core.fn_list:
